@@ -156,7 +156,7 @@ def line_of(text, idx):
 FREM_RE = re.compile(r"(?<![\w.])((?:self\.)?[A-Za-z_][\w]*(?:\.[A-Za-z_]\w*)*)\s*%\s*((?:self\.)?[A-Za-z_][\w]*(?:\.[A-Za-z_]\w*)*)")
 
 
-def inject_kani(scratch_repo, plan_path=None):
+def inject_kani(scratch_repo, plan_path=None, omit_contracts=()):
     plan_path = plan_path or os.path.join(VERIF, "contracts/kani/inject.json")
     plan = json.load(open(plan_path))
     report = {"added_lines": 0, "rewrites": [], "functions": [], "files": []}
@@ -173,7 +173,12 @@ def inject_kani(scratch_repo, plan_path=None):
     for c in plan.get("copy", []):
         dst = os.path.join(scratch_repo, c["to"])
         os.makedirs(os.path.dirname(dst), exist_ok=True)
-        shutil.copyfile(os.path.join(VERIF, c["from"]), dst)
+        txt = open(os.path.join(VERIF, c["from"])).read()
+        for name in omit_contracts:
+            # harnesses that need the omitted contract are fenced in the harness file
+            txt = re.sub(r"//@@begin-needs-contract " + re.escape(name) + r"\n.*?//@@end-needs-contract " + re.escape(name) + r"\n",
+                         "", txt, flags=re.S)
+        open(dst, "w").write(txt)
         report["files"].append(c["to"])
 
     for e in plan.get("frem", []):
@@ -208,6 +213,10 @@ def inject_kani(scratch_repo, plan_path=None):
 
     orig_cache = {}
     for e in plan.get("before_fn", []):
+        if e.get("contract") in omit_contracts:
+            # this harness group replaces the function by an arbitrary-result stub, which Kani does not
+            # allow on a function that carries a contract
+            continue
         s = rd(e["file"])
         ls, ob, cb = find_fn(s, e["fn"], e.get("impl"))
         # record the real function text (from /repo, un-injected) for evidence
